@@ -441,6 +441,16 @@ def gen_module(ctx: Ctx, avail_modules: List[Unit], with_submodule=False):
                 a.doc = a.doc
             ai.bodies.append(b)
         m.interfaces.append(ai)
+        # an abstract type whose deferred bindings name these interfaces (several names in one statement when they share one)
+        if rng.random() < 0.6:
+            at = DType(ctx.name("t"), abstract=True)
+            at.doc = ctx.doc()
+            at.multi_binding_stmt = rng.random() < 0.6
+            for k in range(rng.randint(1, 3)):
+                db = Binding(ctx.name("b"), deferred_iface=(ai.bodies[0] if k < 2 else rng.choice(ai.bodies)).name, attrs=["nopass"])
+                db.doc = ctx.doc() if not at.multi_binding_stmt else []
+                at.bindings.append(db)
+            m.types.append(at)
         # procedure pointer variable using it
         if rng.random() < 0.6:
             pv = Var(ctx.name("p"), TypeSpec("procedure", proto=ai.bodies[0].name), attrs=["pointer"], init="null()", points=True)
